@@ -536,8 +536,11 @@ pub fn classes(op: &Op, rng: &mut ChaCha8Rng, nrand: usize) -> Vec<Class> {
         }
         Op::ToLeBytes(Some(n)) => {
             let bits = 8 * *n as u32;
-            for (name, x) in [("0", F::ZERO), ("1", F::ONE), ("max", two_pow(bits) - F::ONE), ("255", F::from(255)), ("256", F::from(256))] {
+            for (name, x) in [("0", F::ZERO), ("1", F::ONE), ("max", two_pow(bits) - F::ONE), ("255", F::from(255))] {
                 out.push(cls(&format!("x={name}"), W::f(&[x])));
+            }
+            if *n > 1 {
+                out.push(cls("x=256", W::f(&[F::from(256)])));
             }
             out.push(unsat("x=2^bits", W::f(&[two_pow(bits)])));
             for i in 0..nrand {
